@@ -40,8 +40,16 @@ def judge(ctx, prog, text, res, kind, point, info, monitors):
     if res.presweep is None:
         ctx.fail("no-abort-sweep", "Skedder.run returned without announcing / performing the final abort sweep", wit)
         return
-    ready = res.presweep["ready"]
     crashed = set(s["tasker"] for s in res.sends if s.get("raised"))
+    # who is still scheduled is decided from the observed history, not from the skedder's own queue: every scheduled
+    # (active / inactive) tasker that has not returned ABORTED from a run and whose generator did not die
+    first_sweep_i = next((i for i, s in enumerate(res.sends) if s["caller"] == "sweep"), len(res.sends))
+    gone = set(s["tasker"] for s in res.sends[:first_sweep_i] if s["depth"] == 0 and s.get("status") == "aborted")
+    ready = [n for n in info.sched if info.sched[n] in ("active", "inactive") and n not in crashed and n not in gone]
+    queue = res.presweep["ready"]
+    ctx.check(sorted(queue) == sorted(ready), "abort-sweep-queue-is-not-the-still-scheduled-taskers",
+              "when the run ends the skedder's queue holds %s, the taskers still scheduled are %s" % (sorted(queue), sorted(ready)),
+              lambda: wit({"queue": queue, "still_scheduled": ready}))
     # (a) termination rule on normal exits
     taskables = [n for n in info.sched if info.sched[n] in ("active", "inactive")]
     for t in res.ticks[1:]:
